@@ -110,7 +110,7 @@ pub async fn run_io(cfg: RunCfg) -> RunResult {
     let store = Arc::new(party.lance_store(URI));
     let sched = ScanScheduler::new(store.clone(), SchedulerConfig { io_buffer_size_bytes: io_buffer });
     let path = Path::from(FILE);
-    let nclients = rng.range(1, 4) as usize;
+    let nclients = if cfg.thorough() { rng.range(2, 6) } else { rng.range(1, 4) } as usize;
     let results: Arc<Mutex<Vec<ReqResult>>> = Arc::new(Mutex::new(Vec::new()));
     // open the file schedulers in direct mode (metadata call), then gate the reads
     let mut files = Vec::new();
@@ -124,7 +124,7 @@ pub async fn run_io(cfg: RunCfg) -> RunResult {
     let mut tasks = Vec::new();
     let mut script = Vec::new();
     for (c, f) in files.into_iter().enumerate() {
-        let nreq = rng.range(1, 4) as usize;
+        let nreq = if cfg.thorough() { rng.range(2, 8) } else { rng.range(1, 4) } as usize;
         let mut reqs = Vec::new();
         for _ in 0..nreq {
             let ranges = gen_ranges(&mut rng, size, allow_empty, allow_overlap);
